@@ -234,6 +234,8 @@ func retryClassify(c *hk.Ctx) {
 
 var errSentinel = errors.New("HTTP request failed")
 
+var ctxFlavour int
+
 type scriptedOp struct {
 	mu    sync.Mutex
 	times []time.Time
@@ -371,7 +373,22 @@ func runExecuteCase(c *hk.Ctx, cfg *mcp.VerifRetryConfig, script []any, cancelAt
 	nt   bool
 }) {
 	op := &scriptedOp{outs: script}
-	ctx, cancel := context.WithCancel(context.Background())
+	// the caller's context in the flavours callers use: plain cancel, cancel with an application cause, a child of a context
+	// cancelled with a cause. Whatever the flavour, a cancelled sequence ends with the context's error (ctx.Err()).
+	ctxFlavour++
+	var ctx context.Context
+	var cancel func()
+	switch ctxFlavour % 3 {
+	case 0:
+		ctx, cancel = context.WithCancel(context.Background())
+	case 1:
+		c2, cc := context.WithCancelCause(context.Background())
+		ctx, cancel = c2, func() { cc(errors.New("application: shutting down")) }
+	default:
+		parent, pc := context.WithCancelCause(context.Background())
+		c2, cc := context.WithCancel(parent)
+		ctx, cancel = c2, func() { pc(errors.New("application: tenant removed")); cc() }
+	}
 	defer cancel()
 	var cj any
 	if cfg != nil {
@@ -394,7 +411,7 @@ func runExecuteCase(c *hk.Ctx, cfg *mcp.VerifRetryConfig, script []any, cancelAt
 	switch {
 	case err == nil:
 		result = "success"
-	case errors.Is(err, context.Canceled):
+	case ctx.Err() != nil && err == ctx.Err():
 		result = "ctxErr"
 	default:
 		idx := -1
@@ -471,6 +488,7 @@ func retryOverflowReachable(c *hk.Ctx) {
 type e2eStep struct {
 	st   int    // HTTP status of this attempt; 200 = a valid answer; 0 = read the request, then close the connection without answering
 	body string // body of a non-200 answer ("" = "scripted")
+	bare bool   // the status line carries no reason phrase ("HTTP/1.1 503"), as some proxies and embedded servers write it
 }
 
 func e2eScripts() [][]e2eStep {
@@ -484,10 +502,12 @@ func e2eScripts() [][]e2eStep {
 		}
 		out = append(out, sc)
 	}
+	// transient statuses on a status line without reason phrase
+	out = append(out, []e2eStep{{st: 503, bare: true}, {st: 200}}, []e2eStep{{st: 429, bare: true}, {st: 502, bare: true}, {st: 200}}, []e2eStep{{st: 404, bare: true}, {st: 200}})
 	// non-transient 4xx answers whose BODY (chosen by the server / a gateway) mentions transient codes
 	for _, st := range []int{400, 403, 404} {
 		for _, body := range []string{"upstream said 503 Service Unavailable", "HTTP 502", "code 429 from backend", "status: 504 gateway", "error 500 things"} {
-			out = append(out, []e2eStep{{st, body}, {st, body}, {st, body}, {st, body}, {st, body}})
+			out = append(out, []e2eStep{{st: st, body: body}, {st: st, body: body}, {st: st, body: body}, {st: st, body: body}, {st: st, body: body}})
 		}
 	}
 	return out
@@ -550,6 +570,14 @@ func runE2E(c *hk.Ctx, kind string, mr int, sc []e2eStep) {
 				b := step.body
 				if b == "" {
 					b = "scripted"
+				}
+				if step.bare {
+					if hj, ok := w.(http.Hijacker); ok {
+						cn, _, _ := hj.Hijack()
+						fmt.Fprintf(cn, "HTTP/1.1 %d\r\nContent-Type: text/plain\r\nContent-Length: %d\r\nConnection: close\r\n\r\n%s\n", step.st, len(b)+1, b)
+						cn.Close()
+					}
+					return
 				}
 				http.Error(w, b, step.st)
 			}
